@@ -48,6 +48,10 @@ TECH = {
     'C03': ('ordering automata over clang CFGs (store-own-flag-then-load-the-other handshake), lock-scope and condition-variable discipline',
             'Trusted: C++11 seq_cst total order; one controlling thread at a time; one AsyncLoopData per object. Not decided: wake-up latency '
             'beyond the absence of a lost wake-up; a body that never returns; that tasking::schedule runs the closure (C02).'),
+    'C04': ('pattern-level (dependent AST) term normal forms, truth tables and polynomial normal forms for every function of vec.h; typed resolved-callee cross-check; LLVM-IR value-graph identities; static_assert layout witnesses',
+            'Built-in arithmetic element types, no NaN, no UB. Not decided: floating-point rounding (any association order of a sum is accepted); the scalar kernels rcp/rsqrt/madd (C07).'),
+    'C05': ('order-atom truth tables, lattice-shape matching, polynomial normal form, corner-set enumeration on the dependent AST and typed instantiations; LLVM-IR identities against per-axis definitions',
+            'Relies on C04 for vec min/max/anyLessThan. Not decided: rounding ("within rounding"), NaN bounds, correctness of xfmPoint itself (C06), conditioning of the affine map; clamp on inverted ranges is a precondition.'),
     'C07': ('LLVM-IR value-graph normal form of identity drivers + interval bound of the Newton-Raphson error polynomial; AST purity rule',
             'Real-number reading of float operations with relative rounding <= 2^-24 per operation (no under/overflow); rcpss/rsqrtss estimate error '
             '<= 1.5*2^-12 (Intel SDM); no NaN/-0. Not decided: denormal, -0, NaN and huge inputs incl. rcp_safe on them; monotonicity/accuracy of pow; '
